@@ -63,6 +63,8 @@ INPUTS = {
     "n": ("integer :: n", "integer, intent(in) :: n", (0, 3)),
     "isel": ("integer :: isel", "integer, intent(in) :: isel", (-1, 4)),
     "l": ("logical :: l", "logical, intent(in) :: l", (0, 1)),
+    "lp": ("logical :: lp", "logical, intent(in) :: lp", (0, 1)),
+    "lq": ("logical :: lq", "logical, intent(in) :: lq", (0, 1)),
     "ch": ("character(len=1) :: ch", "character(len=1), intent(in) :: ch", (1, 3)),
 }
 #: locals that are never initialised by the driver nor printed by it
@@ -402,6 +404,38 @@ _t("expr.paren", "", "x = (x)\ny = ((x + y))\nk = (isel)")
 _t("expr.arrelem", "s", "x = a(1) + b(0) * c(2)\na(2) = a(3) - (a(1) - b(2))\nia(ia(3)) = 9")
 _t("expr.struct", "", "s%r = s%r + x\ns%i = s%i + isel\nx = s%v(2) * s%r")
 
+# ---- brackets: the reader drops them, the writer must put them back ---------
+# logical operators, three logical inputs over their 8 truth assignments
+_t("lgx.oreqv", "", "k = 0\nif (l .or. (lp .eqv. lq)) k = k + 1\nif ((l .or. lp) .eqv. lq) k = k + 10\nif (l .or. lp .eqv. lq) k = k + 100\nif ((l .neqv. lp) .or. lq) k = k + 1000\nif (l .neqv. (lp .or. lq)) k = k + 10000\nif (l .neqv. lp .or. lq) k = k + 100000")
+_t("lgx.eqvor", "", "k = 0\nif ((l .eqv. lp) .or. lq) k = k + 1\nif (l .eqv. (lp .or. lq)) k = k + 10\nif (l .eqv. lp .or. lq) k = k + 100\nif (l .or. (lp .neqv. lq)) k = k + 1000\nif ((l .or. lp) .neqv. lq) k = k + 10000\nif (l .or. lp .neqv. lq) k = k + 100000")
+_t("lgx.andor", "", "k = 0\nif ((l .and. lp) .or. lq) k = k + 1\nif (l .and. (lp .or. lq)) k = k + 10\nif (l .and. lp .or. lq) k = k + 100\nif (l .or. (lp .and. lq)) k = k + 1000\nif ((l .or. lp) .and. lq) k = k + 10000\nif (l .or. lp .and. lq) k = k + 100000")
+_t("lgx.andeqv", "", "k = 0\nif (l .and. (lp .eqv. lq)) k = k + 1\nif ((l .and. lp) .eqv. lq) k = k + 10\nif (l .and. lp .eqv. lq) k = k + 100\nif ((l .neqv. lp) .and. lq) k = k + 1000\nif (l .neqv. (lp .and. lq)) k = k + 10000\nif (l .neqv. lp .and. lq) k = k + 100000")
+_t("lgx.not", "", "k = 0\nif (.not. (l .and. lp)) k = k + 1\nif (.not. l .and. lp) k = k + 10\nif (.not. (l .or. lp) .and. lq) k = k + 100\nif (.not. (l .eqv. lp)) k = k + 1000\nif (.not. l .eqv. lp) k = k + 10000\nif (l .and. .not. (lp .or. lq)) k = k + 100000\nif (l .or. .not. lp .and. lq) k = k + 1000000")
+_t("lgx.not2", "", "k = 0\nif (.not. (l .neqv. (lp .or. lq))) k = k + 1\nif ((.not. l) .neqv. lp .or. lq) k = k + 10\nif (.not. (.not. l .or. lp)) k = k + 100\nif (l .eqv. .not. (lp .and. lq)) k = k + 1000\nif (.not. (l .or. (lp .eqv. lq))) k = k + 10000")
+_t("lgx.assoc", "", "k = 0\nif ((l .eqv. lp) .eqv. lq) k = k + 1\nif (l .eqv. (lp .eqv. lq)) k = k + 10\nif ((l .neqv. lp) .eqv. lq) k = k + 100\nif (l .neqv. (lp .eqv. lq)) k = k + 1000\nif (l .or. (lp .or. lq)) k = k + 10000\nif (l .and. (lp .and. lq)) k = k + 100000")
+_t("lgx.three", "", "k = 0\nif (l .or. (lp .eqv. lq) .and. l) k = k + 1\nif ((l .or. (lp .eqv. lq)) .and. lp) k = k + 10\nif (l .eqv. (lp .or. (lq .neqv. l))) k = k + 100\nif ((l .eqv. lp) .or. (lq .neqv. l)) k = k + 1000\nif (l .and. (lp .or. lq) .eqv. (l .or. lp) .and. lq) k = k + 10000")
+_t("lgx.assign", "s", "l2 = l .or. (lp .eqv. lq)\nla(1) = (l .neqv. lp) .or. lq\nla(2) = l .and. (lp .or. lq)\nla(3) = .not. (l .or. lp) .eqv. lq\nla(:) = la(:) .or. (lp .neqv. lq)")
+_t("lgx.rel", "", "k = 0\nif (isel > 1 .or. (n == 0 .eqv. lp)) k = k + 1\nif ((isel > 1 .or. n == 0) .eqv. lp) k = k + 10\nif (isel > 1 .and. (n < 2 .or. lp)) k = k + 100\nif (.not. (isel > 1 .and. n < 2)) k = k + 1000\nif ((isel > n) .eqv. (lp .or. n == 3)) k = k + 10000\nif (isel > n .neqv. lp .or. n == 3) k = k + 100000")
+_t("lgx.relarith", "", "k = 0\nif (isel - (n - 1) > 1 .or. (lp .eqv. isel * 2 < n + 3)) k = k + 1\nif ((isel + n) * 2 >= 6 .eqv. (lp .or. isel / 2 == 1)) k = k + 10\nl2 = (isel - n) - 1 <= 0 .neqv. (lp .and. isel /= n)")
+# arithmetic: brackets that matter
+_t("arx.sub", "", "k = (isel - n) - 2\nj = isel - (n - 2)\ni = isel - n - 2\nx = (x - y) - 0.5\ny = x - (y - 0.5)")
+_t("arx.addsub", "", "k = isel - (n + 2)\nj = isel - (n - 2) + (isel - (2 - n))\ni = (isel + n) - (isel - n)")
+_t("arx.div", "", "k = 24 / (n + 1) / 2\nj = 24 / ((n + 1) * 2)\ni = 24 / (n + 1) * 2\nx = x / (2.0 * 4.0)\ny = x / 2.0 * 4.0")
+_t("arx.divdiv", "", "k = 24 / (6 / (n + 1))\nj = (24 / 6) / (n + 1)\ni = isel * ((n + 1) / 2)\nx = x / (y / 2.0 - 8.0)")
+_t("arx.muldiv", "", "k = isel * (n + 1) / 2\nj = (isel * 7) / (n + 1) * 2\ni = isel * (7 / (n + 1)) * 2")
+_t("arx.pow", "", "k = (2 ** n) ** 2\nj = 2 ** (n ** 2)\ni = 2 ** n ** 2")
+_t("arx.powsmall", "", "k = (isel ** 2) ** n\nj = isel ** (2 ** n)\ni = (isel ** n) * 2 - isel ** (n * 2)")
+_t("arx.powneg", "", "k = (-2) ** n\nj = -2 ** n\ni = -(2 ** n)\nx = (-x) ** 2 - x ** 2")
+_t("arx.powmul", "", "k = 2 * 3 ** n\nj = (2 * 3) ** n\ni = 2 ** (n + 1) - (2 ** n + 1)\nx = (x + y) ** 2 / 4.0")
+_t("arx.neg", "", "k = -(isel + n)\nj = -isel + n\ni = isel * (-n)\nx = x * (-y)\ny = -(x - y)")
+_t("arx.neg2", "", "k = isel - (-n)\nj = -(-isel)\ni = isel / (-2)\nx = -(x * y) - (-y)")
+_t("arx.negmul", "", "k = -(isel * n) + (-isel) * n\nj = (-isel) * (-n)\ni = -isel * n\nx = (-x) * y - x")
+_t("arx.mixed", "", "k = isel - (n - 2) * 3\nj = (isel - n) * (n - 2)\ni = (isel - (n - 2)) * 3\nx = (x - y) * (x + y) - (x * x - y * y)")
+# logical SELECT CASE with a list of values
+_t("sel.loglist", "", "select case (l)\ncase (.true., .false.)\n  k = 10\n{BODY}\nend select")
+_t("sel.loglist2", "", "select case (lp .eqv. lq)\ncase (.false., .true.)\n  k = 10\ncase default\n  k = 11\nend select\nselect case (l .or. lp)\ncase (.true.)\n  k = k + 100\ncase (.false.)\n  k = k + 200\nend select")
+_t("sel.loglistexpr", "", "select case (l .neqv. lp)\ncase (.true., .false.)\n  k = 10\nend select\nselect case (isel > 1)\ncase (.false., .true.)\n  k = k + 100\nend select")
+
 # ---- calls ----------------------------------------------------------------
 _t("call.pos", "ckp", "call tsub(x, y)")
 _t("call.named", "", "call tsub(x, q=y)")
@@ -596,8 +630,9 @@ def build(spec):
         main.append("  integer, parameter :: m = 2")
     for name in inputs:
         main.append("  " + INPUTS[name][0])
-    if "l" in inputs:
-        main.append("  integer :: il")
+    for name in ("l", "lp", "lq"):
+        if name in inputs:
+            main.append(f"  integer :: i{name}")
     if "ch" in inputs:
         main.append("  integer :: ic")
     for name in used:
@@ -611,9 +646,9 @@ def build(spec):
         low, high = INPUTS[name][2]
         ncases *= high - low + 1
         pre = "  " * depth
-        if name == "l":
-            main.append(f"{pre}do il = 0, 1")
-            main.append(f"{pre}  l = il == 1")
+        if name in ("l", "lp", "lq"):
+            main.append(f"{pre}do i{name} = 0, 1")
+            main.append(f"{pre}  {name} = i{name} == 1")
         elif name == "ch":
             main.append(f"{pre}do ic = 1, 3")
             main.append(f"{pre}  ch = 'a'")
